@@ -26,7 +26,7 @@ static void cov_exit(int c) { static char b[400]; const char *d = getenv("VX_COV
 #if __M4RI_ENABLE_MMC
 extern mmb_t m4ri_mmc_cache[__M4RI_MMC_NBLOCKS];
 #endif
-extern long aw_live, aw_count; extern int aw_tracking;
+extern long aw_live, aw_count, aw_fill_at; extern int aw_tracking, aw_fill_mode;
 extern void *aw_freed[64]; extern long aw_nfreed; extern void *aw_alloced[64]; extern long aw_nalloced;
 void vx_note_die(const char *m) { (void)m; }
 void vx_note_die_fc(const char *m) { (void)m; }
@@ -415,6 +415,9 @@ int main(int argc, char **argv) {
   S->cap = cap; TK = (volatile uint64_t *)(S + 1); TB = (volatile uint8_t *)(TK + cap);
   classes();
   aw_tracking = 1;
+  /* adversarial allocator: every block handed out by malloc / posix_memalign is pre-filled with a non-zero pattern (what a recycled
+     heap chunk looks like), so "a newly created matrix is entirely zero" never holds by the accident of fresh zero pages */
+  aw_fill_mode = 2; aw_fill_at = -1;
   /* how many blocks does m4ri_fini() release that were allocated before tracking started (code book)? measure in a child */
   { int pfd[2]; if (pipe(pfd)) return 2; pid_t p = fork(); if (p == 0) { long a = aw_live; m4ri_fini(); long dlt = aw_live - a; if (write(pfd[1], &dlt, sizeof dlt) < 0) _exit(3); _exit(0); } int st; waitpid(p, &st, 0); if (read(pfd[0], &FINI_DELTA, sizeof FINI_DELTA) != sizeof FINI_DELTA) { fprintf(stderr, "HARNESS-ERROR: fini probe\n"); return 2; } close(pfd[0]); close(pfd[1]); }
   if (atoi(arg(argc, argv, "replay-scripted", "0"))) {
